@@ -1829,28 +1829,36 @@ class slate_BradleyTerry(BallotGenerator):
 
         cohesion = self.cohesion_parameters[bloc][bloc]
 
+        # fewer than two supported candidates: no adjacent pair to swap, the chain never moves
+        if len(seed_ballot_type) < 2:
+            return [seed_ballot_type.copy() for _ in range(num_ballots)]
+
         # presample swap indices
         swap_indices = [
             (j1, j1 + 1)
             for j1 in np.random.choice(len(seed_ballot_type) - 1, size=num_ballots)
         ]
 
-        odds = (1 - cohesion) / cohesion
         # generate MCMC sample
         for i in range(num_ballots):
             # choose adjacent pair to propose a swap
             j1, j2 = swap_indices[i]
 
-            # if swap reduces number of voters bloc above opposing bloc
-            if (
-                current_ranking[j1] != current_ranking[j2]
-                and current_ranking[j1] == bloc
-            ):
-                acceptance_prob = odds
+            # swapping two of the same bloc does not change the ballot type
+            if current_ranking[j1] == current_ranking[j2]:
+                acceptance_prob = 1.0
 
-            # if swap increases number of voters bloc above opposing or swaps two of same bloc
+            # if swap reduces number of voters bloc above opposing bloc (Metropolis ratio)
+            elif current_ranking[j1] == bloc:
+                acceptance_prob = (
+                    1.0 if cohesion == 0 else min(1.0, (1 - cohesion) / cohesion)
+                )
+
+            # if swap increases number of voters bloc above opposing bloc
             else:
-                acceptance_prob = 1
+                acceptance_prob = (
+                    1.0 if cohesion == 1 else min(1.0, cohesion / (1 - cohesion))
+                )
 
             # if you accept, make the swap
             if random.random() < acceptance_prob:
